@@ -4,6 +4,8 @@ Q1 = "indices1d = tree.query_ball_point(np.transpose(n_1d_arrays(centers, 2)), r
 Q2 = "index1d = tree.query_ball_point(center, r=size / 2, p=np.inf)[0]"
 WR = "window_region = [dimension + (-1) ** (i % 2) * size / 2 for i, dimension in enumerate(region)]"
 ENTRIES = [
+    dict(name="neutral: window region written out with 0.5 * size", expect="DISCHARGED", file="coordinates.py", old="    window_region = [dimension + (-1) ** (i % 2) * size / 2 for i, dimension in enumerate(region)]",
+         new="    window_region = [region[0] + 0.5 * size, region[1] - 0.5 * size, region[2] + size * 0.5, region[3] - size / 2]"),
     dict(name="neutral: rolling_window builds its tree in a new helper", expect="DISCHARGED",
          edits=[("coordinates.py", "    centers = grid_coordinates(window_region, spacing=spacing, shape=shape, adjust=adjust)\n    tree = kdtree(coordinates, use_pykdtree=False)\n", "    centers = grid_coordinates(window_region, spacing=spacing, shape=shape, adjust=adjust)\n    tree = _window_tree(coordinates)\n"),
                 ("coordinates.py", "def _check_rolling_window_overlap(region, size, shape, spacing):", "def _window_tree(coordinates):\n    return kdtree(coordinates, use_pykdtree=False)\n\ndef _check_rolling_window_overlap(region, size, shape, spacing):")]),
